@@ -19,6 +19,7 @@ mod c15;
 mod c16;
 mod c13;
 mod c10;
+mod c09;
 
 pub use util::*;
 
@@ -46,6 +47,7 @@ fn props() -> Vec<Prop> {
         Prop { id: "C16", run: c16::run, gen: c16::gen },
         Prop { id: "C13", run: c13::run, gen: c13::gen },
         Prop { id: "C10", run: c10::run, gen: c10::gen },
+        Prop { id: "C09", run: c09::run, gen: c09::gen },
     ]
 }
 
